@@ -46,9 +46,10 @@ def sh(cmd, timeout=1800, cwd=ROOT, env=None, stdin=None, check=False):
                            timeout=timeout, text=True, errors="replace")
         rc, out = p.returncode, p.stdout
     except subprocess.TimeoutExpired as e:
-        rc, out = 124, (e.stdout or "") + "\n[timeout after %ss]" % timeout
-        if isinstance(out, bytes):
-            out = out.decode(errors="replace")
+        so = e.stdout or ""
+        if isinstance(so, bytes):
+            so = so.decode(errors="replace")
+        rc, out = 124, so + "\n[timeout after %ss]" % timeout
     if check and rc != 0:
         raise RuntimeError("command failed (%s): %s\n%s" % (rc, cmd, out[-4000:]))
     return rc, out
